@@ -8,7 +8,9 @@ DataQuick == { D("empty", 0), D("one", 1), D("blank_nl", 1), D("blank_mix", 8), 
 PtrQuick  == { P("ptr_canon", 130, TRUE), P("ptr_crlf", 133, TRUE), P("ptr_pad1023", 1023, TRUE),
                P("ptr_pad1024", 1024, TRUE), P("ptr_pad1025", 1025, TRUE), P("ptr_ext_dash", 320, TRUE),
                P("ptr_plus_byte", 131, FALSE), P("ptr_plus_line", 140, FALSE), P("ptr_plus_64k", 66000, FALSE),
-               P("ptr_then_data_1500", 1500, FALSE), P("ptr_upper_oid", 130, FALSE) }
+               P("ptr_then_data_1500", 1500, FALSE), P("ptr_upper_oid", 130, FALSE),
+               \* look-alikes whose oid or size value is not one the format allows (no reading of them is a pointer)
+               P("ptr_short_oid", 129, FALSE), P("ptr_md5_oid", 127, FALSE), P("ptr_neg_size", 131, FALSE), P("ptr_nonnum_size", 130, FALSE) }
 MergeQuick == { [name |-> "merged_text", kind |-> "merge", len |-> 9000, wf |-> FALSE] }
 ContentsQuick    == DataQuick \cup PtrQuick \cup MergeQuick
 ContentsThorough == ContentsQuick \cup { D("bin4m", 4194304), D("bin1m1", 1048577), P("ptr_ext", 300, TRUE), P("ptr_legacy", 128, TRUE) }
